@@ -1176,6 +1176,87 @@ def Encoder_EncodePackedUInt64.body (fuel : Nat) : Encoder_EncodePackedUInt64.St
 def Encoder_EncodePackedUInt64 (fuel : Nat) (e_p : Bytes) (e_offset : BitVec 64) (tag : BitVec 64) (vs : List (BitVec 64)) : Go.Out Encoder_EncodePackedUInt64.St Encoder_EncodePackedUInt64.R :=
   Encoder_EncodePackedUInt64.body fuel { e_p := e_p, e_offset := e_offset, tag := tag, vs := vs }
 
+/-! ### `Encoder.EncodePackedInt32` (/repo/encoder.go:138:1) -/
+
+structure Encoder_EncodePackedInt32.St where
+  e_p : Bytes
+  e_offset : BitVec 64
+  tag : BitVec 64
+  vs : List (BitVec 32)
+  sz : BitVec 64 := 0#64
+  v : BitVec 32 := 0#32
+
+abbrev Encoder_EncodePackedInt32.R := Unit
+
+/-- the body of `Encoder_EncodePackedInt32`, statement by statement -/
+def Encoder_EncodePackedInt32.body (fuel : Nat) : Encoder_EncodePackedInt32.St → Go.Out Encoder_EncodePackedInt32.St Encoder_EncodePackedInt32.R :=
+  (Go.seq (Go.seq (fun s => if ((BitVec.ofNat 64 s.vs.length) == 0#64) then (fun s => .ret () s) s else Go.skip s)
+    (Go.seq (fun s => if ((s.e_offset).toNat ≤ s.e_p.length) then match (EncodeTag fuel (s.e_p.drop (s.e_offset).toNat) s.tag 2#64) with | .ret r c => .next { s with e_p := s.e_p.take (s.e_offset).toNat ++ c.dest, e_offset := (s.e_offset + r) } | .next _ => .panic | .panic => .panic | .diverge => .diverge else .panic)
+    (Go.seq (fun s => .next { s with sz := 0#64 })
+    (Go.seq (Go.forEach (fun s => s.vs) (fun s x => { s with v := x })
+    (fun s => .next { s with sz := (s.sz + (SizeOfVarint (BitVec.signExtend 64 s.v))) }))
+    (Go.seq (fun s => if ((s.e_offset).toNat ≤ s.e_p.length) then match (EncodeVarint fuel (s.e_p.drop (s.e_offset).toNat) s.sz) with | .ret r c => .next { s with e_p := s.e_p.take (s.e_offset).toNat ++ c.dest, e_offset := (s.e_offset + r) } | .next _ => .panic | .panic => .panic | .diverge => .diverge else .panic)
+    (Go.forEach (fun s => s.vs) (fun s x => { s with v := x })
+    (fun s => if ((s.e_offset).toNat ≤ s.e_p.length) then match (EncodeVarint fuel (s.e_p.drop (s.e_offset).toNat) (BitVec.signExtend 64 s.v)) with | .ret r c => .next { s with e_p := s.e_p.take (s.e_offset).toNat ++ c.dest, e_offset := (s.e_offset + r) } | .next _ => .panic | .panic => .panic | .diverge => .diverge else .panic)))))))
+    (fun s => .ret () s))
+
+def Encoder_EncodePackedInt32 (fuel : Nat) (e_p : Bytes) (e_offset : BitVec 64) (tag : BitVec 64) (vs : List (BitVec 32)) : Go.Out Encoder_EncodePackedInt32.St Encoder_EncodePackedInt32.R :=
+  Encoder_EncodePackedInt32.body fuel { e_p := e_p, e_offset := e_offset, tag := tag, vs := vs }
+
+/-! ### `Encoder.EncodePackedInt64` (/repo/encoder.go:158:1) -/
+
+structure Encoder_EncodePackedInt64.St where
+  e_p : Bytes
+  e_offset : BitVec 64
+  tag : BitVec 64
+  vs : List (BitVec 64)
+  sz : BitVec 64 := 0#64
+  v : BitVec 64 := 0#64
+
+abbrev Encoder_EncodePackedInt64.R := Unit
+
+/-- the body of `Encoder_EncodePackedInt64`, statement by statement -/
+def Encoder_EncodePackedInt64.body (fuel : Nat) : Encoder_EncodePackedInt64.St → Go.Out Encoder_EncodePackedInt64.St Encoder_EncodePackedInt64.R :=
+  (Go.seq (Go.seq (fun s => if ((BitVec.ofNat 64 s.vs.length) == 0#64) then (fun s => .ret () s) s else Go.skip s)
+    (Go.seq (fun s => if ((s.e_offset).toNat ≤ s.e_p.length) then match (EncodeTag fuel (s.e_p.drop (s.e_offset).toNat) s.tag 2#64) with | .ret r c => .next { s with e_p := s.e_p.take (s.e_offset).toNat ++ c.dest, e_offset := (s.e_offset + r) } | .next _ => .panic | .panic => .panic | .diverge => .diverge else .panic)
+    (Go.seq (fun s => .next { s with sz := 0#64 })
+    (Go.seq (Go.forEach (fun s => s.vs) (fun s x => { s with v := x })
+    (fun s => .next { s with sz := (s.sz + (SizeOfVarint s.v)) }))
+    (Go.seq (fun s => if ((s.e_offset).toNat ≤ s.e_p.length) then match (EncodeVarint fuel (s.e_p.drop (s.e_offset).toNat) s.sz) with | .ret r c => .next { s with e_p := s.e_p.take (s.e_offset).toNat ++ c.dest, e_offset := (s.e_offset + r) } | .next _ => .panic | .panic => .panic | .diverge => .diverge else .panic)
+    (Go.forEach (fun s => s.vs) (fun s x => { s with v := x })
+    (fun s => if ((s.e_offset).toNat ≤ s.e_p.length) then match (EncodeVarint fuel (s.e_p.drop (s.e_offset).toNat) s.v) with | .ret r c => .next { s with e_p := s.e_p.take (s.e_offset).toNat ++ c.dest, e_offset := (s.e_offset + r) } | .next _ => .panic | .panic => .panic | .diverge => .diverge else .panic)))))))
+    (fun s => .ret () s))
+
+def Encoder_EncodePackedInt64 (fuel : Nat) (e_p : Bytes) (e_offset : BitVec 64) (tag : BitVec 64) (vs : List (BitVec 64)) : Go.Out Encoder_EncodePackedInt64.St Encoder_EncodePackedInt64.R :=
+  Encoder_EncodePackedInt64.body fuel { e_p := e_p, e_offset := e_offset, tag := tag, vs := vs }
+
+/-! ### `Encoder.EncodePackedUInt32` (/repo/encoder.go:178:1) -/
+
+structure Encoder_EncodePackedUInt32.St where
+  e_p : Bytes
+  e_offset : BitVec 64
+  tag : BitVec 64
+  vs : List (BitVec 32)
+  sz : BitVec 64 := 0#64
+  v : BitVec 32 := 0#32
+
+abbrev Encoder_EncodePackedUInt32.R := Unit
+
+/-- the body of `Encoder_EncodePackedUInt32`, statement by statement -/
+def Encoder_EncodePackedUInt32.body (fuel : Nat) : Encoder_EncodePackedUInt32.St → Go.Out Encoder_EncodePackedUInt32.St Encoder_EncodePackedUInt32.R :=
+  (Go.seq (Go.seq (fun s => if ((BitVec.ofNat 64 s.vs.length) == 0#64) then (fun s => .ret () s) s else Go.skip s)
+    (Go.seq (fun s => if ((s.e_offset).toNat ≤ s.e_p.length) then match (EncodeTag fuel (s.e_p.drop (s.e_offset).toNat) s.tag 2#64) with | .ret r c => .next { s with e_p := s.e_p.take (s.e_offset).toNat ++ c.dest, e_offset := (s.e_offset + r) } | .next _ => .panic | .panic => .panic | .diverge => .diverge else .panic)
+    (Go.seq (fun s => .next { s with sz := 0#64 })
+    (Go.seq (Go.forEach (fun s => s.vs) (fun s x => { s with v := x })
+    (fun s => .next { s with sz := (s.sz + (SizeOfVarint (BitVec.setWidth 64 s.v))) }))
+    (Go.seq (fun s => if ((s.e_offset).toNat ≤ s.e_p.length) then match (EncodeVarint fuel (s.e_p.drop (s.e_offset).toNat) s.sz) with | .ret r c => .next { s with e_p := s.e_p.take (s.e_offset).toNat ++ c.dest, e_offset := (s.e_offset + r) } | .next _ => .panic | .panic => .panic | .diverge => .diverge else .panic)
+    (Go.forEach (fun s => s.vs) (fun s x => { s with v := x })
+    (fun s => if ((s.e_offset).toNat ≤ s.e_p.length) then match (EncodeVarint fuel (s.e_p.drop (s.e_offset).toNat) (BitVec.setWidth 64 s.v)) with | .ret r c => .next { s with e_p := s.e_p.take (s.e_offset).toNat ++ c.dest, e_offset := (s.e_offset + r) } | .next _ => .panic | .panic => .panic | .diverge => .diverge else .panic)))))))
+    (fun s => .ret () s))
+
+def Encoder_EncodePackedUInt32 (fuel : Nat) (e_p : Bytes) (e_offset : BitVec 64) (tag : BitVec 64) (vs : List (BitVec 32)) : Go.Out Encoder_EncodePackedUInt32.St Encoder_EncodePackedUInt32.R :=
+  Encoder_EncodePackedUInt32.body fuel { e_p := e_p, e_offset := e_offset, tag := tag, vs := vs }
+
 /-! ### `Encoder.EncodeBool` (/repo/encoder.go:25:1) -/
 
 structure Encoder_EncodeBool.St where
